@@ -23,6 +23,9 @@ def orders : Orders where
   chDiffDifference := Facts.C02.chDiffDifference.map Call.ofCode
   chDiffEmpty := Facts.C02.chDiffEmpty.map Call.ofCode
   chDiffTooLong := Facts.C02.chDiffTooLong.map Call.ofCode
+  diffGuard := Facts.C02.diffGuard
+  sliceGuard := Facts.C02.sliceGuard
+  chDiffGuard := Facts.C02.chDiffGuard
   applyPtsBreak := decide (Facts.C02.applyPtsSkip ≠ 0)
   chApplyPtsBreak := decide (Facts.C02.chApplyPtsSkip ≠ 0)
   ownDirect := Facts.C02.ownDirect
